@@ -94,7 +94,8 @@ def run(tier):
     import gen
     import oracle
     n = 300 if tier == "quick" else 4000
-    ps = gen.programs(common.seed() * 1000 + 2, n, p_bad=0.0)
+    # half of them carry random annotations on literal constructs and declaration lines (Den.tla gives them a place)
+    ps = gen.programs(common.seed() * 1000 + 2, n // 2, p_bad=0.0) + gen.programs(common.seed() * 1000 + 12, n - n // 2, p_bad=0.0, p_ann=0.25)
     rps = [render.render_program(p, style=i % 4) for i, p in enumerate(ps)]
     oracle.crosscheck(ps, rps)
     cases = [{"main": rp["main"], "files": rp["files"], "want": {"doc": True}} for rp in rps]
@@ -117,7 +118,7 @@ def run(tier):
     chk.cov["rule"] = ("families of DenMC.tla: Ranges (pairs/triples of contents over 4 statuses x 3 media types, through let and a function), Uris (8 templates, concat of "
                        "every pair, through let), Xfers (8 transfer lists, through let on two resources), Schemas (all forms to depth 2, marks in three places, through "
                        "@let), RecInst, RecGraphs(2), FnPos, PosShape (thorough); plus seeded random composite programs (driver/gen.py: several declarations of all sorts, functions, an imported module, recursion) "
-                       "judged by Den.tla in oracle mode (300 quick / 4000 thorough generated; the accepted and evaluated ones are compared); non-trivial = accepted and evaluated by the real compiler, so that a document was compared")
+                       "judged by Den.tla in oracle mode (300 quick / 4000 thorough generated, half of them with random annotations on literal constructs and declaration lines; the accepted and evaluated ones are compared); non-trivial = accepted and evaluated by the real compiler, so that a document was compared")
     chk.assumptions = [
         "annotations are not part of this fragment of the reference semantics (their placement is covered only through determinism/agreement checks)",
         "recursive schemas are compared as trees unfolded to structural depth %d on both sides; object properties are compared as sets" % K,
